@@ -20,6 +20,9 @@ F = 'python/experiment/model/frontends/flowir.py'
 CF = 'python/experiment/model/conf.py'
 G = 'python/experiment/model/graph.py'
 RealDataReference = graph_mod.DataReference
+RealComponentIdentifier = graph_mod.ComponentIdentifier
+import networkx as _nx
+REAL_FIND_CYCLE = _nx.find_cycle            # captured before any patching
 
 IDS = [(0, 'gen'), (1, 'use'), (1, '0#looped'), (1, '1#looped')]
 REFS = ['stage0.gen:ref', 'gen/out.txt:copy', 'stage1.use:output', 'stage0.missing:ref', 'ghost:ref', 'stage1.looped:ref',
@@ -65,11 +68,17 @@ class ValidateReferences(Target):
     def ensures(self, c, st, out):
         if out.kind == 'raise':
             return [('no-exception', False)]
-        return [('reports-exactly-the-dangling-component-references', list(out.value) == expected_missing(st.refs, st.implied))]
+        # the statement needs a dangling reference to be REPORTED (the caller rejects the workflow iff the list is non-empty)
+        # and nothing else to be reported; it does not need every dangling reference to be listed
+        want = expected_missing(st.refs, st.implied)
+        got = list(out.value)
+        return [('a-dangling-component-reference-is-reported', bool(got) == bool(want)),
+                ('only-dangling-component-references-are-reported', all(x in want for x in got))]
 
 
 class DuplicateIdentifiers(Target):
     prop = 'C11'
+    set_iter = 'permute'       # a set iterated by the code is explored in every order
     name = 'FlowIRConcrete._get_real_component_identifiers'
     file = F
     qualname = 'FlowIRConcrete._get_real_component_identifiers'
@@ -177,23 +186,46 @@ class CycleCheck(Target):
     name = 'ComponentSpecification.checkDataReferences'
     file = G
     qualname = 'ComponentSpecification.checkDataReferences'
-    trusted = ["networkx.find_cycle raises NetworkXNoCycle iff the node is on no cycle", "resolveArguments (C10)"]
+    trusted = ["networkx.find_cycle / DiGraph (the real library, executed natively on the concrete graphs of the harness)",
+               "resolveArguments (C10)"]
+    assumptions = ["workflow graphs: 6 concrete shapes around the checked component (no cycle, same-stage cycle, cycle across two "
+                   "and three stages, self loop, cycle further downstream)"]
+
+    SHAPES = {
+        # edges of the WHOLE workflow graph (producer -> consumer); 'stage0.me' is the component being checked
+        'no-cycle': [('stage0.a', 'stage0.me'), ('stage0.me', 'stage1.b')],
+        'same-stage-cycle': [('stage0.me', 'stage0.b'), ('stage0.b', 'stage0.me')],
+        'cross-stage-cycle': [('stage0.me', 'stage1.b'), ('stage1.b', 'stage0.me')],
+        'long-cross-stage-cycle': [('stage0.me', 'stage1.b'), ('stage1.b', 'stage2.c'), ('stage2.c', 'stage0.me')],
+        'self-loop': [('stage0.me', 'stage0.me')],
+        'cycle-elsewhere-downstream': [('stage0.me', 'stage1.b'), ('stage1.b', 'stage1.c'), ('stage1.c', 'stage1.b')],
+    }
 
     def setup(self, c):
         import networkx
         g = c.ghost
         g['asked'] = None
-        has_cycle = c.one_of('node_on_a_cycle', [False, True])
+        shape = c.one_of('graph', sorted(self.SHAPES))
+        graph = networkx.DiGraph()
+        graph.add_edges_from(self.SHAPES[shape])
+        # the property: "the expanded graph is acyclic" -- a component from which a cycle can be reached must be rejected
+        try:
+            REAL_FIND_CYCLE(graph, source='stage0.me', orientation='original')
+            has_cycle = True
+        except networkx.NetworkXNoCycle:
+            has_cycle = False
         is_repeat = c.one_of('isRepeat', [False, True])
         copy_same_stage = c.one_of('copies_from_same_stage_component', [False, True])
         ref = Obj('ref', stageIndex=0 if copy_same_stage else 1, method='copy' if copy_same_stage else 'ref',
                   stringRepresentation='stage0.subject:copy')
 
-        def find_cycle(c, graph, source=None, orientation=None):
+        def find_cycle(c, gr, source=None, orientation=None):
+            # the REAL networkx.find_cycle on whatever graph the code passes (trusted library, executed natively)
             c.ghost['asked'] = source
-            if not has_cycle:
+            try:
+                return REAL_FIND_CYCLE(gr, source=source, orientation=orientation)
+            except networkx.NetworkXNoCycle:
                 c.raise_(networkx.NetworkXNoCycle, 'No cycle found.')
-            return [('stage0.me', 'stage0.b'), ('stage0.b', 'stage0.me')]
         unresolved_err = c.one_of('unresolved', [None, 'undeclared'])
         unused_err = c.one_of('unused', [None, 'unused'])
 
@@ -203,12 +235,14 @@ class CycleCheck(Target):
             if unused_err:
                 unused.append(errors.UnusedDataReferenceError('stage0.me', Obj('r', stringRepresentation='stage0.x:ref'), 'm'))
             return ''
+        real_id = RealComponentIdentifier('me', 0)
         this = Obj('spec', workflowAttributes={'isRepeat': is_repeat}, componentDataReferences=[ref],
-                   identification=Obj('cid', identifier='stage0.me', stageIndex=0),
-                   workflowGraphRef=Extern('workflowGraphRef', lambda c: Obj('wg', graph='G')),
+                   identification=Obj('cid', identifier=real_id.identifier, stageIndex=real_id.stageIndex,
+                                      namespace=real_id.namespace, componentName=real_id.componentName),
+                   workflowGraphRef=Extern('workflowGraphRef', lambda c: Obj('wg', graph=graph)),
                    resolveArguments=Extern('resolveArguments', resolve))
         st = State(args=[this], has_cycle=has_cycle, is_repeat=is_repeat, copy=copy_same_stage,
-                   unresolved=unresolved_err, unused=unused_err)
+                   unresolved=unresolved_err, unused=unused_err, shape=shape)
         st.find_cycle = Extern('networkx.find_cycle', find_cycle)
         return st
 
@@ -238,5 +272,49 @@ class CycleCheck(Target):
         return cl
 
 
-TARGETS = [ValidateReferences(), DuplicateIdentifiers(), TryReportErrors(), InitializeFunnel(), CycleCheck()]
+class PropagateReplicateCycles(Target):
+    """The OTHER place where a dependency cycle is rejected at load time: FlowIR.propagate_replicate sorts the component
+    graph topologically (networkx raises NetworkXUnfeasible on a cycle; _initialize funnels the exception into the
+    invalid-configuration error).  The property needs a cycle to be rejected by at least one of the two."""
+    prop = 'C11'
+    name = 'FlowIR.propagate_replicate[cycles]'
+    file = F
+    qualname = 'FlowIR.propagate_replicate'
+    trusted = ["networkx DiGraph / topological_sort (the real library, executed natively on the concrete graphs of the harness)"]
+    assumptions = ["the same 6 graph shapes as the cycle check; no component, the checked one, or an unrelated one replicates"]
+    alternatives = {'a-cycle-is-rejected': 'cycle-rejection'}
+    pure = ('cls.ParseDataReferenceFull',)
+
+    def alt_case(self, c, st):
+        return st.shape
+
+    def setup(self, c):
+        shape = c.one_of('graph', sorted(CycleCheck.SHAPES))
+        edges = CycleCheck.SHAPES[shape]
+        nodes = sorted({n for e in edges for n in e})
+        who = c.one_of('replicating', [None, 'stage0.me', 'other'])
+        comps = []
+        for n in nodes:
+            stage, name = n.split('.', 1)
+            comp = {'stage': int(stage[5:]), 'name': name, 'references': ['%s:ref' % p for (p, q) in edges if q == n]}
+            if who == n:
+                comp['workflowAttributes'] = {'replicate': 2}
+            comps.append(comp)
+        if who == 'other':
+            comps.append({'stage': 0, 'name': 'unrelated', 'references': [], 'workflowAttributes': {'replicate': 3}})
+        g = _nx.DiGraph()
+        g.add_edges_from(edges)
+        return State(args=[FlowIR, comps, False], shape=shape, cyclic=not _nx.is_directed_acyclic_graph(g))
+
+    def ensures(self, c, st, out):
+        if st.cyclic:
+            return [('a-cycle-is-rejected', out.kind == 'raise')]
+        return [('acyclic-workflows-pass', out.kind == 'return')]
+
+
+CycleCheck.alternatives = {'a-cycle-is-rejected': 'cycle-rejection'}
+CycleCheck.alt_case = lambda self, c, st: st.shape
+
+TARGETS = [ValidateReferences(), DuplicateIdentifiers(), TryReportErrors(), InitializeFunnel(), CycleCheck(),
+           PropagateReplicateCycles()]
 LEMMAS = []
